@@ -352,7 +352,10 @@ def observe_key(store, K, unK, k):
         fi = m.get("fileinfo", {})
         o.md5_raw = fi.get("md5")
         md5 = fi.get("md5")
-        o.meta = ".".join([hx(unK(m.get("key"))), hx(fi.get("name", "?")), "T" if fi.get("is_dir") is True else "F" if fi.get("is_dir") is False else "?",
+        nm = fi.get("name", "?")
+        if k == "" and kk != "" and nm == name(kk):
+            nm = ""   # the root of a mounted store is seen at its mount point and carries the mount point's name
+        o.meta = ".".join([hx(unK(m.get("key"))), hx(nm), "T" if fi.get("is_dir") is True else "F" if fi.get("is_dir") is False else "?",
                            "~" if fi.get("size") is None else str(fi.get("size")),
                            "~" if md5 is None else (hx(MD5[md5]) if md5 in MD5 else "?" + str(md5)), hx(m.get(USER_FIELD, ""))])
     except Exception as ex:
